@@ -590,8 +590,9 @@ def _aarch64(ctx):
         name_eq = [e for e in pos if isinstance(e, ast.Compare) and isinstance(e.ops[0], ast.Eq)
                    and {_strip_fold(e.left), _strip_fold(e.comparators[0])} == {pa + ".name", pb + ".name"}]
         ins = [e for e in pos if isinstance(e, ast.Compare) and isinstance(e.ops[0], ast.In)]
-        ca = [U(e.comparators[0]) for e in ins if _strip_fold(e.left) == pa + ".prefix"]
-        cb = [U(e.comparators[0]) for e in ins if _strip_fold(e.left) == pb + ".prefix"]
+        subj = lambda x: _accessor_attr(ctx, x) or _strip_fold(x)
+        ca = [U(e.comparators[0]) for e in ins if subj(e.left) == pa + ".prefix"]
+        cb = [U(e.comparators[0]) for e in ins if subj(e.left) == pb + ".prefix"]
         common = set(ca) & set(cb)
         if name_eq and common:
             for c in common:
@@ -605,10 +606,11 @@ def _aarch64(ctx):
                 ctx.check(folded, "R3", "register names compared case-insensitively", f.where(e),
                           "the names are compared with `%s` without case folding: `sp` and `SP` (both accepted by "
                           "the grammar) are treated as different registers" % U(e), f.qname, U(e))
+            prefix_stored_folded = _stored_folded(ctx, "RegisterOperand", "prefix")
             for e in ins:
-                if _strip_fold(e.left) in (pa + ".prefix", pb + ".prefix"):
-                    ctx.check(_has_fold(e.left), "R3", "prefix compared case-insensitively: " + U(e), f.where(e),
-                              "prefix compared without case folding", f.qname, U(e))
+                if subj(e.left) in (pa + ".prefix", pb + ".prefix"):
+                    ctx.check(_has_fold(e.left) or prefix_stored_folded, "R3", "prefix compared case-insensitively: " + U(e), f.where(e),
+                              "prefix compared without case folding (and RegisterOperand does not store it folded)", f.qname, U(e))
         else:
             ctx.node_bad("R4", f, r, "this `return True` is not guarded by `equal number and both prefixes in one "
                          "class` (facts: %s)" % [U(e) for e in pos])
@@ -616,6 +618,64 @@ def _aarch64(ctx):
         ctx.check(w in seen, "R4", "class %s has a positive rule" % "".join(sorted(w)), f.where(),
                   "no `return True` is guarded by membership of both prefixes in the class %s" % sorted(w),
                   f.qname, "positive rule for class %s" % "".join(sorted(w)))
+
+
+_ACCESSORS = {}
+
+
+def _accessor_attr(ctx, call):
+    """`self.helper(x)` / `Cls.helper(x)` where every return of helper gives `<its parameter>.<attr>` (through single-assignment
+    locals; other exits raise): the text `x.attr`. None otherwise."""
+    if not (isinstance(call, ast.Call) and isinstance(call.func, ast.Attribute) and len(call.args) == 1 and not call.keywords):
+        return None
+    name = call.func.attr
+    cands = [g for g in ctx.repo.all_funcs() if g.name == name]
+    if len(cands) != 1:
+        return None
+    g = cands[0]
+    key = (id(ctx.repo), g.qname)
+    if key not in _ACCESSORS:
+        attr = None
+        prm = [p_ for p_ in g.params() if p_ not in ("self", "cls")]
+        rets = [r_ for r_ in ast.walk(g.node) if isinstance(r_, ast.Return)]
+        if len(prm) == 1 and rets:
+            fl_ = C.flow_of(g)
+            vals = set()
+            for r_ in rets:
+                v_ = fl_.subst(r_.value) if r_.value is not None else None
+                vals.add(U(v_) if v_ is not None else None)
+            if len(vals) == 1:
+                (t_,) = vals
+                if t_ is not None and t_.startswith(prm[0] + ".") and t_[len(prm[0]) + 1:].isidentifier():
+                    attr = t_[len(prm[0]) + 1:]
+        _ACCESSORS[key] = attr
+    attr = _ACCESSORS[key]
+    return "%s.%s" % (U(call.args[0]), attr) if attr else None
+
+
+def _stored_folded(ctx, cls_name, attr):
+    """Is the attribute `attr` of class `cls_name` stored case-folded by every writer (constructor and setter), and read back
+    unchanged by its property? Then comparisons of it need no folding of their own."""
+    try:
+        c = ctx.repo.cls(cls_name)
+    except Exception:
+        return False
+    defs = [d for d in c.node.body if isinstance(d, (ast.FunctionDef, ast.AsyncFunctionDef))]   # (getter and setter share a name)
+    stores = [n for d in defs for n in ast.walk(d) if isinstance(n, ast.Assign)
+              and any(isinstance(t, ast.Attribute) and t.attr == "_" + attr and U(t.value) == "self" for t in n.targets)]
+    if not stores:
+        return False
+    for n in stores:
+        v = n.value
+        arms = [v.body, v.orelse] if isinstance(v, ast.IfExp) else [v]
+        for a in arms:
+            if isinstance(a, ast.Constant) and a.value is None:
+                continue
+            if not _has_fold(a):
+                return False
+    getters = [d for d in defs if d.name == attr and any(
+        isinstance(r_, ast.Return) and r_.value is not None and U(r_.value) == "self._" + attr for r_ in ast.walk(d))]
+    return bool(getters)
 
 
 def _strip_fold(e):
